@@ -3,6 +3,7 @@ package kernel
 import (
 	"fmt"
 	"math/big"
+	"slices"
 	"sort"
 	"testing"
 	"time"
@@ -35,7 +36,7 @@ func TestVerif_C24(t *testing.T) {
 	r.SetRule("a real node and store; per scenario 1..6 in-flight local proposals are installed on the node's own chain (aggregator + verifier entries as cosiSendAnnouncement " +
 		"creates them) over transactions in random states (finalized, body in the store, body only in the cache, no body), with random commitment/response counts and timestamps " +
 		"around now-gap; overlaps only in the protocol-reachable pattern (a transaction of an expired proposal re-proposed by a newer one at least one gap later). The cache queue is " +
-		"drained, one retirement runs (expiry, abandon-and-retry, round reset with an owned set, announcement deferral, full action pool, requeue-class announcement error) and the " +
+		"drained, one retirement runs (expiry, abandon-and-retry, round reset with an owned set, announcement deferral, duplicate deferral (a new self snapshot repeating transactions owned by a still-active proposal), full action pool, requeue-class announcement error) and the " +
 		"queue is drained again. Oracle: every transaction of a retired proposal that is unfinalized and has a body is in the drained set; transactions owned by a still-active " +
 		"proposal or by the triggering snapshot are not; complete or unexpired proposals are not retired. non-trivial = distinct scenarios by (retirement, transaction-state mix, overlap)")
 	rng := r.Rand()
@@ -163,7 +164,7 @@ func TestVerif_C24(t *testing.T) {
 		_ = drain()
 
 		// one retirement
-		kind := []string{"expiry", "expiry", "retry", "round-reset", "deferral", "full-pool", "announcement-error"}[rng.Intn(7)]
+		kind := []string{"expiry", "expiry", "retry", "round-reset", "deferral", "full-pool", "announcement-error", "duplicate-deferral"}[rng.Intn(8)]
 		retired := map[*vC24Proposal]bool{}
 		ownedSet := map[crypto.Hash]bool{}
 		var extra []*vC24Tx // transactions of the triggering self snapshot (deferral / full pool / announcement error)
@@ -199,6 +200,51 @@ func TestVerif_C24(t *testing.T) {
 				ownedSet[v.hash] = true
 			}
 			panicked, panicVal, _ = verifkit.Guard(func() { chain.resetCosiStateForNewRound(owned) })
+		case "duplicate-deferral":
+			// the new self snapshot (same round, inside the gap) repeats transactions that a still-active proposal
+			// owns, at random positions among fresh companions: the companions are requeued, the owned ones are not
+			var live []*vC24Proposal
+			for _, pr := range props {
+				if !pr.expired {
+					live = append(live, pr)
+				}
+			}
+			first := now - config.SnapshotRoundGap/2
+			if len(live) == 0 || first/OneDay != now/OneDay {
+				r.Count("scenario_setup_did_not_take_the_intended_path_"+kind, 1)
+				continue
+			}
+			s := &common.Snapshot{Version: common.SnapshotVersionCommonEncoding, NodeId: self, Timestamp: now}
+			for k := 0; k < 1+rng.Intn(4); k++ {
+				v := newTx([]string{"stored", "cached"}[rng.Intn(2)])
+				mix[v.state] = true
+				extra = append(extra, v)
+				s.Transactions = append(s.Transactions, v.hash)
+			}
+			for k := 0; k < 1+rng.Intn(2); k++ {
+				pr := live[rng.Intn(len(live))]
+				g := pr.txs[rng.Intn(len(pr.txs))]
+				if owner[g.hash] == nil || owner[g.hash].expired || slices.Contains(s.Transactions, g.hash) {
+					continue
+				}
+				pos := rng.Intn(len(s.Transactions) + 1)
+				s.Transactions = slices.Insert(s.Transactions, pos, g.hash)
+			}
+			if len(s.Transactions) == len(extra) {
+				r.Count("scenario_setup_did_not_take_the_intended_path_"+kind, 1)
+				extra = nil
+				continue
+			}
+			chain.State = &ChainState{
+				CacheRound: &CacheRound{NodeId: self, Number: 5, Timestamp: first, References: new(common.RoundLink),
+					Snapshots: []*common.Snapshot{{NodeId: self, RoundNumber: 5, Timestamp: first}}},
+				FinalRound: &FinalRound{NodeId: self, Number: 4},
+			}
+			panicked, panicVal, _ = verifkit.Guard(func() {
+				if err := chain.cosiSendAnnouncement(&CosiAction{PeerId: self, Action: CosiActionSelfEmpty, Snapshot: s, data: &CosiChainData{}}); err != nil {
+					panic("deferral scenario returned an error: " + err.Error())
+				}
+			})
 		case "deferral", "full-pool", "announcement-error":
 			s := &common.Snapshot{Version: common.SnapshotVersionCommonEncoding, NodeId: self}
 			for k := 0; k < 1+rng.Intn(4); k++ {
